@@ -211,6 +211,35 @@ Theorem key_unique_up_to_encoding_refuted :
 Proof. exact key_unique_up_to_encoding_refuted_witness. Qed.
 Print Assumptions key_unique_up_to_encoding_refuted.
 
+(** Queue.Put with MsgIDToReplace keeps the SignData of the replaced message, whatever the caller changed in it
+    ([OpReplace]: any new body; not a [live_op]).  (1) Witness: replacing the body of a signed item by one with other
+    signing bytes leaves a signature that no longer verifies.  (2) When a caller is harmless: from a state whose stored
+    signatures are all valid, a replace whose item has no signatures, or whose new body leaves the signing bytes as they
+    are, keeps them all valid — for every [verify].  (3) The source has exactly one such caller, the fee attachment of the
+    end-blocker ([OpElect]: SetElectedGasEstimate has emptied SignData in the same cache context); any other function
+    that builds PutOptions with MsgIDToReplace makes this theorem fail. *)
+Theorem replace_keeps_stale_sigs :
+  exists it e, In it (st_items (run isig iverify replace_witness_ops)) /\ In e (it_sigs it) /\
+    iverify (sign_bytes it) (se_sig e) (se_key e) = false /\
+    (forall it0, In it0 (st_items (run isig iverify (firstn 4 replace_witness_ops))) ->
+       forall e0, In e0 (it_sigs it0) -> iverify (sign_bytes it0) (se_sig e0) (se_key e0) = true).
+Proof. exact replace_keeps_stale_sigs_witness. Qed.
+Print Assumptions replace_keeps_stale_sigs.
+
+Theorem replace_safe_iff_no_sigs_or_same_bytes :
+  forall (Sig : Type) (verify : sbytes -> Sig -> Z -> bool) (s : state Sig) (chain id b : Z),
+  wf Sig s -> all_sigs_valid Sig verify s ->
+  (forall it, find_item (st_items s) chain id = Some it ->
+              it_sigs it = [] \/ sign_bytes (Queue.with_body it b) = sign_bytes it) ->
+  all_sigs_valid Sig verify (fst (step Sig verify s (OpReplace chain id b))).
+Proof. exact replace_safe_all. Qed.
+Print Assumptions replace_safe_iff_no_sigs_or_same_bytes.
+
+Theorem replace_has_one_caller :
+  Gen.C06.replace_callers = ["x/consensus/keeper/estimate.go:Keeper.checkAndProcessEstimatedFeePayer"]%string.
+Proof. exact eq_refl. Qed.
+Print Assumptions replace_has_one_caller.
+
 (** valset.GetSigningKey (the model's [lookup_key]: chain and named address of one of the validator's accounts) has a
     single key-returning exit and it has compared chain type, chain reference AND address with the arguments: there is
     no exit that hands out the key of an account registered under another chain reference or another address. *)
